@@ -94,7 +94,7 @@ def work_cells(item, rec):
             rec.count("valid_cells_accepted_and_value_checked")
         if exp == "invalid" and all(outs[f][0] == "reject" for f in P.FORMS_2):
             rec.count("invalid_cells_rejected_with_input_error")
-        for key, forms in keyed("C19:%s:%s" % (type_, cls), devs):
+        for key, forms in keyed(P.key_prefix("C19", type_, c, role), devs):
             if key in seen:
                 rec.count("violations_same_key_same_item")
                 continue
@@ -130,6 +130,17 @@ def run_structural(V, case):
     return outs, devs
 
 
+def attributed_name(V, case, devs):
+    """a pair of violations that deviates exactly like one of its members alone is the member's finding (one root
+    cause = one key); otherwise the pair is named"""
+    if len(case["viol"]) == 2 and any(devs.values()):
+        singles = {c["name"]: c for c in P.structural_cases() if len(c["viol"]) == 1}
+        for m in case["viol"]:
+            if m in singles and run_structural(V, singles[m])[1] == devs:
+                return m
+    return case["name"]
+
+
 def work_structural(case, rec):
     V = harness.boot()
     outs, devs = run_structural(V, case)
@@ -141,7 +152,7 @@ def work_structural(case, rec):
     rec.count("structural_expected_" + case["exp"])
     if case["exp"] == "invalid" and all(outs[f][0] == "reject" for f in P.FORMS_2):
         rec.count("structural_violations_rejected_with_input_error")
-    for key, forms in keyed("C19:structure:%s" % case["name"], devs):
+    for key, forms in keyed("C19:structure:%s" % attributed_name(V, case, devs), devs):
         rec.violation(key, "table with %s (columns %s, rows %s): %s  [expected: %s]" % (
             case["name"], case["spec"]["cols"], case["spec"]["rows"][:3],
             "; ".join("%s: %s" % (P.FORM_NAME[f], _show(outs[f])) for f in forms),
